@@ -207,21 +207,6 @@ func genRecovery(r *Repo) (string, error) {
 	handleGuard := ""
 	ast.Inspect(fd.Body, func(n ast.Node) bool {
 		switch x := n.(type) {
-		case *ast.CallExpr:
-			if ce, ok := isCall(x, "slices", "ContainsFunc"); ok && len(ce.Args) == 2 && r.Text(ce.Args[0]) == "blacklistedHeader" {
-				if fl, ok := ce.Args[1].(*ast.FuncLit); ok && len(fl.Body.List) == 1 {
-					if rs, ok := fl.Body.List[0].(*ast.ReturnStmt); ok && len(rs.Results) == 1 {
-						if _, ok := isCall(rs.Results[0], "strings", "EqualFold"); ok {
-							mode, modeText = 1, "foldCase"
-						} else if be, ok := rs.Results[0].(*ast.BinaryExpr); ok && be.Op == token.EQL {
-							mode, modeText = 2, "exact"
-						}
-					}
-				}
-			}
-			if ce, ok := isCall(x, "slices", "Contains"); ok && len(ce.Args) == 2 && r.Text(ce.Args[0]) == "blacklistedHeader" {
-				mode, modeText = 2, "exact"
-			}
 		case *ast.IfStmt:
 			cond := strings.ReplaceAll(r.Text(x.Cond), " ", "")
 			if strings.Contains(cond, "errors.Is(e,http.ErrAbortHandler)") && len(x.Body.List) == 1 {
@@ -241,6 +226,40 @@ func genRecovery(r *Repo) (string, error) {
 		}
 		return true
 	})
+	// how a header name is compared with the redaction list: every use of blacklistedHeader in recovery.go (in
+	// recovery() itself or in a helper it was moved to) must compare the same way
+	modes := map[int]bool{}
+	if rf := r.Files["recovery.go"]; rf != nil {
+		ast.Inspect(rf, func(n ast.Node) bool {
+			x, ok := n.(*ast.CallExpr)
+			if !ok {
+				return true
+			}
+			if ce, ok := isCall(x, "slices", "ContainsFunc"); ok && len(ce.Args) == 2 && r.Text(ce.Args[0]) == "blacklistedHeader" {
+				m := 0
+				if fl, ok := ce.Args[1].(*ast.FuncLit); ok && len(fl.Body.List) == 1 {
+					if rs, ok := fl.Body.List[0].(*ast.ReturnStmt); ok && len(rs.Results) == 1 {
+						if _, ok := isCall(rs.Results[0], "strings", "EqualFold"); ok {
+							m = 1
+						} else if be, ok := rs.Results[0].(*ast.BinaryExpr); ok && be.Op == token.EQL {
+							m = 2
+						}
+					}
+				}
+				modes[m] = true
+			}
+			if ce, ok := isCall(x, "slices", "Contains"); ok && len(ce.Args) == 2 && r.Text(ce.Args[0]) == "blacklistedHeader" {
+				modes[2] = true
+			}
+			return true
+		})
+	}
+	if len(modes) == 1 {
+		for m := range modes {
+			mode = m
+		}
+		modeText = map[int]string{0: "unknown", 1: "foldCase", 2: "exact"}[mode]
+	}
 	// any other call of the RecoveryFunc outside that guard would defeat it
 	handleCalls := 0
 	ast.Inspect(fd.Body, func(n ast.Node) bool {
